@@ -25,6 +25,8 @@ pub fn stop_timed_out(h: &Hist, s: u8) -> bool {
 }
 
 pub const MARK_SETTLED: u32 = 7;
+/// the scenario dropped every handle of the store instead of stopping it and then waited for quiescence
+pub const MARK_ABANDONED: u32 = 16;
 
 /// stop() ran into its timeout and the scenario did not wait for the reducer loop to end afterwards
 /// (a scenario that does records MARK_SETTLED once the loop's last act, releasing the subscribers, was seen)
@@ -174,7 +176,8 @@ pub fn c01(h: &Hist, s: u8, v: &mut Verdicts) {
         }
         if d.ok == Some(true) {
             accepted += 1;
-            if cfg.policy == POL_BLOCK && !timed_out && first_stop(h, s).is_some() && cfg.n_red > 0 {
+            let ended = first_stop(h, s).is_some() || h.evs.iter().any(|e| e.k == K::Mark && e.idx == MARK_ABANDONED);
+            if cfg.policy == POL_BLOCK && !timed_out && ended && cfg.n_red > 0 {
                 match sh.acts.get(a) {
                     None => v.fail("C01", format!("store {}: action {} was accepted (dispatch returned Ok, {}) but never reached the pipeline", s, id_str(*a), EP_NAMES[d.ep as usize])),
                     Some(ar) => {
